@@ -43,6 +43,7 @@ func c01Attach(t *rapid.T, h *history) {
 		return l.BaseTotal, new(big.Int).Set(h.N.App.GetEmission())
 	}
 	prevT, prevE := check("genesis")
+	prevParts := sim.BaseParts(&h.G.V.Exp)
 	prev := h.R.H.AfterCommit
 	h.R.H.AfterCommit = func(height uint64) {
 		if prev != nil {
@@ -52,8 +53,9 @@ func c01Attach(t *rapid.T, h *history) {
 		dT := new(big.Int).Sub(T, prevT)
 		dE := new(big.Int).Sub(E, prevE)
 		if dT.Cmp(dE) != 0 {
-			violation(t, "base-total-vs-emission", h.R, "height %d: base-coin total changed by %s but emission counter by %s (difference %s)", height, dT, dE, new(big.Int).Sub(dT, dE))
+			violation(t, "base-total-vs-emission", h.R, "height %d: base-coin total changed by %s but emission counter by %s (difference %s); components:%s", height, dT, dE, new(big.Int).Sub(dT, dE), sim.DiffParts(prevParts, sim.BaseParts(&h.G.V.Exp)))
 		}
 		prevT, prevE = T, E
+		prevParts = sim.BaseParts(&h.G.V.Exp)
 	}
 }
